@@ -78,7 +78,7 @@ type Report struct {
 	ByCost           map[string]int64 `json:"by_cost"`
 	Outcomes         map[string]int64 `json:"outcomes"`
 	DistinctOutcomes int              `json:"distinct_outcomes"`
-	OutcomeHashes    []uint64         `json:"outcome_hashes,omitempty"`
+	OutcomeHashes    []string         `json:"outcome_hashes,omitempty"`
 	MaxDepth         int              `json:"max_depth"`
 	MaxThreads       int              `json:"max_threads"`
 	Deadlocks        int64            `json:"deadlocks"`
